@@ -244,6 +244,13 @@ size_t varintFloatEncode(uint8_t *output, const double *values,
             } else {
                 /* Reduced precision: truncate from 53 bits to target */
                 mantissas[i] = truncateMantissa(mantissas[i], 53, mant_bits);
+                if (mantissas[i] >> mant_bits) {
+                    /* Rounding carried out of the kept bits (1.111.. became
+                     * 10.000..): renormalise so the carry is not dropped
+                     * when only mant_bits bits are packed */
+                    mantissas[i] >>= 1;
+                    exponents[i]++;
+                }
             }
         }
     }
